@@ -375,7 +375,7 @@ fn mutate_tree(rng: &mut Rng, orig: &[u8]) -> Option<Vec<u8>> {
             10 => { if sibs[i].kids.is_none() && !sibs[i].content.is_empty() { let p = (r1 % sibs[i].content.len() as u64) as usize; sibs[i].content[p] ^= 1 << (r2 % 8); } }
             11 => { if sibs[i].kids.is_none() { sibs[i].content.push((r1 & 0xff) as u8); } }
             12 => { if sibs[i].kids.is_none() && !sibs[i].content.is_empty() { sibs[i].content.remove(0); } }
-            _ => { if let Some(k) = sibs[i].kids.as_mut() { k.push(der::Node { tag: 0x05, kids: None, lead: vec![], content: vec![] }); } }
+            _ => { if let Some(k) = sibs[i].kids.as_mut() { k.push(der::Node { tag: 0x05, kids: None, lead: vec![], content: vec![], long_len: false }); } }
         }
     });
     der::with_node(&mut nodes, &mut idx, &mut f);
@@ -441,6 +441,15 @@ pub fn systematic(orig: &[u8]) -> Vec<Vec<u8>> {
                 der::with_node(&mut n2, &mut idx, &mut f);
             }
             if changed { out.push(der::encode_nodes(&n2)); }
+        }
+        // the same value with its length in a form only BER admits (the relaxed entry points read such objects; what
+        // they keep must still be readable by the iterators that re-parse it later)
+        {
+            let mut n2 = nodes.clone();
+            let mut idx = target;
+            let mut f = Some(|sibs: &mut Vec<der::Node>, i: usize| { sibs[i].long_len = true; });
+            der::with_node(&mut n2, &mut idx, &mut f);
+            out.push(der::encode_nodes(&n2));
         }
     }
     out
